@@ -37,7 +37,7 @@ def aux(shape, dims, fill, dry=False):
     w = np.array([6.0 + 5 * c for c in fill]).reshape(shape)
     wd = np.array([30.0 * c * c for c in fill]).reshape(shape)
     # intermediate depths (6, 12, 24 m) so that the depth of a position actually decides its wind-sea mask
-    dp = np.array([(0.0 if (dry and c == 3) else 3.0 * 2 ** c) for c in fill]).reshape(shape)
+    dp = np.array([((0.0 if dry == 1 else np.nan) if (dry and c == 3) else 3.0 * 2 ** c) for c in fill]).reshape(shape)
     mk = lambda a: xr.DataArray(a, coords={d: np.arange(s) for d, s in zip(dims, shape)}, dims=tuple(dims))  # noqa
     return mk(w), mk(wd), mk(dp)
 
@@ -45,9 +45,11 @@ def aux(shape, dims, fill, dry=False):
 def call(da, op, wargs):
     if op == "hmax_notime":
         return da.spec.hmax()
-    if op in ("ptm1", "ptm2", "ptm4", "ptm1_smooth"):
+    if op in ("ptm1", "ptm2", "ptm4", "ptm1_smooth", "ptm2_smooth"):
         w, wd, dp = wargs
         p = da.spec.partition
+        if op == "ptm2_smooth":
+            return p.ptm2(w, wd, dp, swells=2, smooth=True)
         if op == "ptm1":
             return p.ptm1(w, wd, dp, swells=3)
         if op == "ptm1_smooth":
@@ -101,7 +103,7 @@ def run(ctx):
             order = "lead_first"
         da0 = build(shape, dims, v["before"], spectra, order, dtype)
         da1 = build(shape, dims, v["after"], spectra, order, dtype)
-        dry = iv % 4 == 3
+        dry = {3: 1, 1: 2}.get(iv % 4, 0)       # 1: dry point (depth 0), 2: unreported depth (NaN) where spectrum 3 sits
         w0, w1 = aux(shape, dims, v["before"], dry), aux(shape, dims, v["after"], dry)
         idxs = list(np.ndindex(*shape))
         pe = v["edited"] - 1
@@ -164,7 +166,7 @@ def call_ds(da, op, wargs):
     ds = da.to_dataset(name="efth")
     if op == "hmax_notime":
         return ds.spec.hmax()
-    if op in ("ptm1", "ptm2", "ptm4", "ptm1_smooth", "ptm3", "ptm5", "bbox"):
+    if op in ("ptm1", "ptm2", "ptm4", "ptm1_smooth", "ptm2_smooth", "ptm3", "ptm5", "bbox"):
         class _W:      # partition is reached through the same attribute on both accessors
             pass
         w = _W()
@@ -182,6 +184,8 @@ def call_via(acc, op, wargs):
     if op == "bbox":
         return p.bbox([dict(fmin=0.04, fmax=0.16, dmin=10.0, dmax=190.0), dict(fmin=0.17, fmax=0.5)])
     w, wd, dp = wargs
+    if op == "ptm2_smooth":
+        return p.ptm2(w, wd, dp, swells=2, smooth=True)
     if op == "ptm1":
         return p.ptm1(w, wd, dp, swells=3)
     if op == "ptm1_smooth":
